@@ -67,7 +67,12 @@ func runRule(c *core.Ctx) {
 	}
 	pos := c.Prog.Pos(fn.Pos())
 	recv := ssa.Value(fn.Params[0])
-	ps, err := paths.Enumerate(fn, paths.Config{})
+	inline := func(call *ssa.Call, callee *ssa.Function) bool {
+		// small unexported methods of the candidate itself (fail / succeed helpers)
+		return callee.Pkg == fn.Pkg && callee.Object() != nil && !callee.Object().Exported() && len(callee.Blocks) > 0 && callee.Signature.Recv() != nil &&
+			len(call.Call.Args) > 0 && call.Call.Args[0] == recv
+	}
+	ps, err := paths.Enumerate(fn, paths.Config{Inline: inline, MaxDepth: 2})
 	if err != nil {
 		c.Unknown("C09-RUN", key, pos, "path enumeration failed: "+err.Error())
 		return
@@ -964,9 +969,77 @@ func buildExtras(c *core.Ctx) {
 				}
 			}
 		}
+		// the other spelling: for _, less := range b.compareFuncs[:len(b.compareFuncs)-1] { ... }; return b.compareFuncs[len-1](..)
+		rangeForm := false
 		if idx == nil {
-			problems = append(problems, "no comparator index of the form idx = 0; idx++")
-		} else {
+			isLast := func(v ssa.Value) bool {
+				sub, isS := v.(*ssa.BinOp)
+				if !isS || sub.Op != token.SUB {
+					return false
+				}
+				k, isK := constInt(sub.Y)
+				call, isC := sub.X.(*ssa.Call)
+				if !isK || k != 1 || !isC {
+					return false
+				}
+				bi, isBi := call.Call.Value.(*ssa.Builtin)
+				return isBi && bi.Name() == "len" && isRecvFieldLoad(call.Call.Args[0], r, "compareFuncs")
+			}
+			var prefix *ssa.Slice
+			for _, b := range less.Blocks {
+				for _, ins := range b.Instrs {
+					if sl, ok := ins.(*ssa.Slice); ok && isRecvFieldLoad(sl.X, r, "compareFuncs") && sl.Low == nil && sl.High != nil && isLast(sl.High) {
+						prefix = sl
+					}
+				}
+			}
+			if prefix != nil {
+				rangeForm = true
+				var header *ssa.BasicBlock
+				for _, b := range less.Blocks {
+					for _, ins := range b.Instrs {
+						ia, ok := ins.(*ssa.IndexAddr)
+						if !ok {
+							continue
+						}
+						switch {
+						case ia.X == ssa.Value(prefix):
+							// the element of the ranged prefix: index is the range index of a rangeindex loop over it
+							inc, isInc := ia.Index.(*ssa.BinOp)
+							okIdx := isInc && inc.Op == token.ADD
+							if okIdx {
+								ph, isPhi := inc.X.(*ssa.Phi)
+								okIdx = isPhi && ph.Block().Comment == "rangeindex.loop"
+								if okIdx {
+									header = ph.Block()
+									if hif, isIf := header.Instrs[len(header.Instrs)-1].(*ssa.If); isIf {
+										cmp, isCmp := hif.Cond.(*ssa.BinOp)
+										okIdx = isCmp && cmp.Op == token.LSS && cmp.X == ssa.Value(inc)
+										if okIdx {
+											lc, isC := cmp.Y.(*ssa.Call)
+											okIdx = isC && lc.Call.Args[0] == ssa.Value(prefix)
+										}
+									}
+								}
+							}
+							if !okIdx {
+								rangeForm = false
+							}
+						case isRecvFieldLoad(ia.X, r, "compareFuncs"):
+							if !isLast(ia.Index) || (header != nil && reaches(b, header)) {
+								rangeForm = false
+							}
+						}
+					}
+				}
+				if header == nil {
+					rangeForm = false
+				}
+			}
+		}
+		if idx == nil && !rangeForm {
+			problems = append(problems, "no comparator index of the form idx = 0; idx++ (or a range over compareFuncs[:len-1])")
+		} else if idx != nil {
 			hb := idx.Block()
 			ifi, ok := hb.Instrs[len(hb.Instrs)-1].(*ssa.If)
 			okBound := false
